@@ -274,6 +274,11 @@ func (m *Manager) AddBlocks(blocks []types.Block) error {
 				return fmt.Errorf("missing parent state for block %v", bid)
 			}
 		}
+		if b.ParentID == (types.BlockID{}) {
+			// the store holds a state under the zero ID (the state before
+			// genesis), but only the genesis block can attach to it
+			return fmt.Errorf("block %v has no parent", bid)
+		}
 		if b.Timestamp.After(cs.MaxFutureTimestamp(time.Now())) {
 			return ErrFutureBlock
 		} else if err := consensus.ValidateOrphan(cs, b); err != nil {
